@@ -26,8 +26,8 @@ Model of
 
 The hash is a parameter `H : GObj → Sha` everywhere; the driver instantiates
 it with git's real object id (`gitId` = SHA-1 of header + serialisation, both
-defined below), the theorems hold for every `H` (and need `H` injective only
-for the import round trip).
+defined below), the theorems hold for every `H` (the import round trip needs
+that no two different objects of the store share an id).
 -/
 namespace BreezyVerif.C35
 
@@ -375,7 +375,15 @@ def PNode.isDir : PNode → Bool
 
 def pkey (c : Bytes × PNode) : Bytes := gitKey c.1 c.2.isDir
 
-mutual
+/-- map an entry importer over the entries of a tree object, keeping the names;
+`none` as soon as one entry cannot be imported -/
+def impList (g : Entry → Option PNode) : List Entry → Option (List (Bytes × PNode))
+  | [] => some []
+  | e :: es =>
+    match g e, impList g es with
+    | some p, some ps => some ((e.name, p) :: ps)
+    | _, _ => none
+
 /-- `import_git_tree` for one child entry; `none` = object missing, of the
 wrong type, a submodule, or fuel exhausted -/
 def impEntry (st : Store) : Nat → Entry → Option PNode
@@ -384,7 +392,7 @@ def impEntry (st : Store) : Nat → Entry → Option PNode
     match importClass e.mode with
     | .tree =>
       match st.get e.sha with
-      | some (.tree es) => (impEntries st f es).map PNode.dir
+      | some (.tree es) => (impList (impEntry st f) es).map PNode.dir
       | _ => none
     | .gitlink => none
     | .symlink =>
@@ -395,13 +403,9 @@ def impEntry (st : Store) : Nat → Entry → Option PNode
       match st.get e.sha with
       | some (.blob d) => some (.file d e.mode)
       | _ => none
-def impEntries (st : Store) : Nat → List Entry → Option (List (Bytes × PNode))
-  | _, [] => some []
-  | f, e :: es =>
-    match impEntry st f e, impEntries st f es with
-    | some p, some ps => some ((e.name, p) :: ps)
-    | _, _ => none
-end
+
+def impEntries (st : Store) (f : Nat) (es : List Entry) : Option (List (Bytes × PNode)) :=
+  impList (impEntry st f) es
 
 def impRoot (st : Store) (fuel : Nat) (root : Sha) : Option (List (Bytes × PNode)) :=
   match st.get root with
@@ -448,6 +452,26 @@ def modesOKC : Children → Bool
   | .nil => true
   | .cons _ n rest => modesOK n && modesOKC rest
 end
+
+mutual
+/-- export of an imported tree (`um` is the mode itself: the revision records
+every non-default mode) -/
+def expP (H : GObj → Sha) : PNode → Option (Nat × Sha)
+  | .file c m => some (m, H (.blob c))
+  | .link t m => some (m, H (.blob t))
+  | .dir cs =>
+    let es := expPL H cs
+    if es.isEmpty then none else some (S_IFDIR, H (.tree (sortEntries es)))
+def expPL (H : GObj → Sha) : List (Bytes × PNode) → List Entry
+  | [] => []
+  | (name, p) :: rest =>
+    if banned name then expPL H rest else
+    match expP H p with
+    | some (m, s) => ⟨m, name, s⟩ :: expPL H rest
+    | none => expPL H rest
+end
+
+def expRootP (H : GObj → Sha) (cs : List (Bytes × PNode)) : Sha := H (.tree (sortEntries (expPL H cs)))
 
 /-! ### git's object id (used by the driver only) -/
 
